@@ -869,7 +869,7 @@ def oracle(case, obs, score=True):
 # ----------------------------------------------------------------------------
 # correspondence: the same numbers as Coq terms (checked by Model/C08.v)
 
-IMPORTS = "From PV Require Import Lib.Base Model.C08 Model.C08_attrs Model.C08_sigs Model.C08_glue Model.C08_Hist."
+IMPORTS = "From PV Require Import Lib.Base Model.C08 Model.C08_attrs Model.C08_sigs Model.C08_glue Model.C08_Hist Model.C08_file."
 DEFS = """
 Definition chk_case_export (c : list (Z * Z * Z) * Z * list ((Z * Z) * (Z * Z * Q * Q))) : bool :=
   let '(tab, dpq, ns) := c in forallb (fun n => chk_export (tab, dpq, fst n, snd n)) ns.
@@ -2531,6 +2531,225 @@ def run_leg_noscore(obs, args, ppq, mpq, path):
     return obs
 
 
+# ---------------------------------------------------------------------------------------------------
+# round j: the file as a whole -- header lines written for the optional texts / the clock given or left out,
+# the clock the loader finds (MatchFile.info: first line with the attribute) and the notes read with it
+HEADER_TEXTS = ["midiClockUnits", "midiClockRate", "-", "Op. 10 No_3", "a b", "x/y.musicxml", "p.mid", "100", "480",
+                "matchFileVersion", "piece", "Anon", "n1", "v1.0.0"]
+HEADER_KEYS = ["performer", "piece", "composer", "score_filename", "performance_filename"]
+
+
+def _hval(v):
+    import numpy as np
+    if isinstance(v, (bool, np.bool_)):
+        return "(HStr %s)" % cstr(str(v))
+    if isinstance(v, (int, np.integer)):
+        return "(HInt %s)" % cz(int(v))
+    t = str(v)
+    if t.startswith("Version("):
+        t = "%d.%d.%d" % (v.major, v.minor, v.patch)
+    return "(HStr %s)" % cstr(t if printable(t) else "?")
+
+
+def _info_rows(mf):
+    return clist([ctuple([cstr(str(i.Attribute)), _hval(i.Value)]) for i in mf.info()])
+
+
+def _file_notes(mf, pp, cap):
+    """the played notes of the file (line order) and the same notes of the loaded performance (by id)"""
+    by = {}
+    for n in pp.notes:
+        by.setdefault(str(n["id"]), n)
+    fns, got = [], []
+    for ln in mf.notes:
+        n = by.get(fmt_pid(str(ln.Id)))
+        if n is None:
+            return None
+        fns.append(ctuple([cz(ln.MidiPitch), cz(ln.Velocity), cz(ln.Onset), cz(ln.Offset)]))
+        got.append(ctuple([cz(n["note_on_tick"]), cz(n["note_off_tick"]), cq(fr_exact(n["note_on"])), cq(fr_exact(n["note_off"]))]))
+        if cap and len(fns) >= cap:
+            break
+    return clist(fns), clist(got)
+
+
+def fr_exact(x):
+    return Fraction(float(x)).limit_denominator(10 ** 12)
+
+
+def file_clock_term(path, zero, cap):
+    """(info lines, clock of the loaded performance or None when load_match raises, played notes of the file, the
+    same notes loaded, first_note_at_zero) for chk_file_clock; cap=0: all notes (needed when zero)"""
+    from partitura.io.importmatch import load_match, load_matchfile
+    with warnings.catch_warnings():
+        warnings.simplefilter("ignore")
+        mf = load_matchfile(path)
+        try:
+            perf, _ = load_match(path, first_note_at_zero=zero)
+            pp = perf[0]
+        except (TypeError, ValueError, AttributeError, ZeroDivisionError):
+            pp = None
+    if pp is None:
+        return ctuple([_info_rows(mf), "None", "[]", "[]", cbool(zero)]), None
+    fg = _file_notes(mf, pp, cap)
+    if fg is None:
+        return None, None
+    return ctuple([_info_rows(mf), "(Some %s)" % ctuple([cz(int(pp.ppq)), cz(int(pp.mpq))]), fg[0], fg[1], cbool(zero)]), (int(pp.ppq), int(pp.mpq))
+
+
+def header_stream(ctx, work, quick):
+    """save_match with the optional texts given or not and the clock given (int / numpy int) or left out, on small
+    generated inputs; returns the terms of the streams 'header' and 'file_clock' (with labels)."""
+    from partitura.io.exportmatch import save_match
+    from partitura.io.importmatch import load_match, load_matchfile
+    import numpy as np
+    rng = ctx.rng
+    h_terms, h_cases, f_terms, f_cases, i_terms = [], [], [], [], []
+    n = 36 if quick else 400
+    path = os.path.join(work, "hdr.match")
+    made = 0
+    tries = 0
+    while made < n and tries < 3 * n:
+        tries += 1
+        case = gen_case(rng, 0.25)
+        try:
+            part, ppart, al = build_objects(case)
+        except Exception:
+            continue
+        kw, texts = {}, {}
+        mode = rng.random()
+        for k in HEADER_KEYS:
+            if mode < 0.15:
+                texts[k] = None
+            elif mode < 0.30 or rng.random() < 0.55:
+                texts[k] = rng.choice(HEADER_TEXTS)
+            else:
+                texts[k] = None
+            if texts[k] is not None or rng.random() < 0.2:
+                kw[k] = texts[k]          # None passed explicitly in 20 % of the not-given options
+        r = rng.random()
+        ppq, mpq = pick_clock(rng)
+        if r < 0.25:
+            giv = (None, None)
+        elif r < 0.40:
+            giv = (ppq, None)
+        elif r < 0.55:
+            giv = (None, mpq)
+        else:
+            giv = (ppq, mpq)
+        kind = rng.choice(["int", "int", "np.int64", "np.int32"])
+        conv = {"int": int, "np.int64": np.int64, "np.int32": np.int32}[kind]
+        if giv[0] is not None:
+            kw["ppq"] = conv(giv[0])
+        if giv[1] is not None:
+            kw["mpq"] = conv(giv[1])
+        label = "header:%d texts=%s clock=%s kind=%s" % (made, json.dumps(texts, sort_keys=True), list(giv), kind)
+        try:
+            with warnings.catch_warnings():
+                warnings.simplefilter("ignore")
+                save_match(al, ppart, part, out=path, assume_unfolded=True, **kw)
+        except Exception as e:
+            ctx.count("header:save_raises(K1 or input)")
+            continue
+        made += 1
+        ctx.evaluations += 1
+        ctx.nontrivial(label)
+        ctx.count("header:cases")
+        ctx.count("header:texts_given_%d" % sum(1 for k in HEADER_KEYS if texts[k] is not None))
+        ctx.count("header:clock_" + ("both_left_out" if giv == (None, None) else "ppq_only" if giv[1] is None else "mpq_only" if giv[0] is None else "both_given"))
+        ctx.count("header:clock_kind_" + kind if giv != (None, None) else "header:clock_kind_none")
+        if any(texts[k] in ("midiClockUnits", "midiClockRate", "matchFileVersion", "piece") for k in HEADER_KEYS):
+            ctx.count("header:text_repeats_an_attribute_name")
+        if any(k in kw and kw[k] is None for k in HEADER_KEYS):
+            ctx.count("header:None_passed_explicitly")
+        want = (giv[0] if giv[0] is not None else 480, giv[1] if giv[1] is not None else 500000)
+        with open(path) as f:
+            text = f.read().splitlines()
+        try:
+            with warnings.catch_warnings():
+                warnings.simplefilter("ignore")
+                mf = load_matchfile(path)
+                perf, _ = load_match(path)
+            pp = perf[0]
+            got = (int(pp.ppq), int(pp.mpq))
+        except Exception as e:
+            ctx.violation("C08 clock: loading the file written by save_match(%s) raises %s: %s" % (label, type(e).__name__, str(e)[:200]),
+                          dict(clause="header", label=label, file_text=text[:40], message="load raises %s" % type(e).__name__))
+            continue
+        # direct oracle: clock units and rate of the loaded performance are those asked for
+        if got != want:
+            ctx.violation("C08 clock: save_match(%s) then load_match: clock of the loaded performance %s, asked %s" % (label, got, want),
+                          dict(clause="header", label=label, file_text=text[:40], message="clock loaded %s, asked %s" % (got, want)))
+        fg = _file_notes(mf, pp, 4)
+        if fg is not None and all(printable(str(i.Value)) or hasattr(i.Value, "major") for i in mf.info()):
+            h_terms.append(ctuple([cstr("1.0.0"), ctuple([copt(texts[k], cstr) for k in HEADER_KEYS]),
+                                   ctuple([copt(giv[0], cz), copt(giv[1], cz)]), _info_rows(mf),
+                                   ctuple([cz(got[0]), cz(got[1])]), fg[0], fg[1]]))
+            h_cases.append(label)
+        # the same file with the header disturbed: a second clock line after the first (first wins), the clock
+        # lines moved behind the notes, a clock line taken out (no clock: the loader cannot go on); and the
+        # undisturbed file with first_note_at_zero
+        var = rng.choice(["second_units", "second_rate", "moved", "no_units", "no_rate", "zero", "zero"])
+        lines = list(text)
+        iu = next(i for i, l in enumerate(lines) if l.startswith("info(midiClockUnits,"))
+        ir = next(i for i, l in enumerate(lines) if l.startswith("info(midiClockRate,"))
+        if var == "second_units":
+            lines.insert(ir + 1, "info(midiClockUnits,%d)." % (want[0] + rng.randint(1, 500)))
+        elif var == "second_rate":
+            lines.insert(rng.randint(ir + 1, len(lines)), "info(midiClockRate,%d)." % (want[1] + rng.randint(1, 5000)))
+        elif var == "moved":
+            u, r_ = lines[iu], lines[ir]
+            lines = [l for i, l in enumerate(lines) if i not in (iu, ir)] + [r_, u]
+        elif var == "no_units":
+            del lines[iu]
+        elif var == "no_rate":
+            del lines[ir]
+        p2 = os.path.join(work, "hdr2.match")
+        with open(p2, "w") as f:
+            f.write("\n".join(lines) + "\n")
+        try:
+            t, clk = file_clock_term(p2, var == "zero", 0 if var == "zero" else 4)
+        except Exception as e:
+            ctx.violation("C08 clock: reading the file with the header variant %s raises %s: %s" % (var, type(e).__name__, str(e)[:200]),
+                          dict(clause="header", label=label + " variant=" + var, file_text=lines[:40], message=str(e)[:200]))
+            continue
+        ctx.count("file_clock:variant_" + var)
+        if var == "zero" and min([int(l_.Onset) for l_ in mf.notes] or [0]) > 0:
+            ctx.count("file_clock:zero_shift_applies")
+        if var in ("moved", "zero") and clk != want:
+            ctx.violation("C08 clock: header variant %s of the file written by save_match(%s): clock loaded %s, first clock lines say %s" % (var, label, clk, want),
+                          dict(clause="header", label=label + " variant=" + var, file_text=lines[:40], message="clock loaded %s, header %s" % (clk, want)))
+        if t is not None and var in ("moved", "zero"):
+            f_terms.append(t)
+            f_cases.append(label + " variant=" + var)
+        elif t is not None:
+            # which of two clock lines counts / what happens without one is not named by the property: informational
+            i_terms.append(t)
+            if var.startswith("second") and clk != want:
+                ctx.count("info:second_clock_line_wins")
+    # the fixture files (all versions): clock found by the model in their info lines = clock of the loaded performance
+    fx_dir = os.path.join(core.REPO, "tests", "data", "match")
+    for fn in sorted(os.listdir(fx_dir)) if os.path.isdir(fx_dir) else []:
+        if not fn.endswith(".match"):
+            continue
+        for zero in (False, True):
+            try:
+                t, clk = file_clock_term(os.path.join(fx_dir, fn), zero, 0 if zero else 40)
+            except Exception:
+                ctx.count("file_clock:fixture_unreadable")
+                continue
+            if t is not None and len(t) < 400000:
+                f_terms.append(t)
+                f_cases.append("fixture:%s zero=%s" % (fn, zero))
+                ctx.count("file_clock:fixture_zero" if zero else "file_clock:fixture")
+    try:
+        for q in (path, os.path.join(work, "hdr2.match")):
+            if os.path.exists(q):
+                os.remove(q)
+    except OSError:
+        pass
+    return h_terms, h_cases, f_terms, f_cases, i_terms
+
+
 def run(ctx):
     ctx.rule = ("cases = generated HISTORIES: (single-part score with one divisions value and complete last measure, performed part "
                 "with or without stored tick fields of the clock it was loaded with, alignment, ppq, mpq) -> save_match -> file -> "
@@ -2567,7 +2786,7 @@ def run(ctx):
     ctx.matchers["C08-K1"] = k1_matcher
     ctx.matchers["C08-K2"] = k2_matcher
     gen()
-    ok, why = ctx.coq_props(expect_min=60)
+    ok, why = ctx.coq_props(expect_min=67)
     quick = ctx.tier == "quick"
     ncases = 240 if quick else 3000
     work = ctx.work
@@ -2825,6 +3044,8 @@ def run(ctx):
                     for b in b3[:1]:
                         ctx.violation("C08 fixture %s saved again: %s" % (fn, b), dict(clause="fixture_resave", fixture=fn, clocks=[[ppq, mpq]], message=b))
     ctx.log("fixtures done")
+    hd_terms, hd_cases, fc_terms, fc_cases, fi_terms = header_stream(ctx, work, quick)
+    ctx.log("header stream done: %d + %d terms" % (len(hd_terms), len(fc_terms)))
     if not ok:
         if not ctx.violations:
             ctx.violation("proof obligations of Props/C08.v no longer check: " + why, {"theorem_or_build": why}, no_input=True)
@@ -2857,12 +3078,18 @@ def run(ctx):
             ("sig_export", sx_terms, sx_cases, "chk_sig_export", "model sig_meas = measure number written on every timeSignature / keySignature line for the signatures of the part given to save_match (every leg)"),
             ("pids", id_terms, id_cases, "chk_pid", "model fmt_pid / pid_leg = performed-note id on the line of the file and in the loaded alignment for the id given in the alignment (every leg)"),
             ("defined", df_terms, df_cases, "chk_defined", "model save_defined (a match entry pairs a performed note with a score note that has a duration) = save_match succeeded (every leg; boundary of the known finding C08-K1)"),
+            ("header", hd_terms, hd_cases, "chk_header", "model header_of / info / load_perf (Model/C08_file.v) = clock lines of the file written by save_match for the optional texts and the clock given or left out, clock of the loaded performance, ticks and seconds of the first notes read with the clock FOUND IN THE FILE"),
+            ("file_clock", fc_terms, fc_cases, "chk_file_clock", "model clock_of / load_perf / first_at_zero on the info and note lines of a file = clock, ticks and seconds of the performance loaded from it (written files with the clock lines moved behind the notes; first_note_at_zero; fixture files)"),
             ("reader", rd_terms, rd_labels, "chk_reader", "model validate(unique_first(lines)) = note lines returned by load_matchfile (written, stressed and fixture files)"),
             ("alignment", al_terms, rd_labels, "chk_alignment", "model alignment_of = alignment_from_matchfile"),
             ("phist", ph_terms, ph_cases, "chk_phist", "state machine hobs (Model/C08_Hist.v: notes moved / replaced / appended / deleted, velocity and the part's clock attributes changed between saves with any clocks, notes with and without stored ticks) = played-note fields written by every save_match of a history on ONE live PerformedPart"),
             ("mhist", mh_terms, mh_cases, "chk_mhist", "state machine mobs (lines deleted from MatchFile.lines, validate_match_ids run again between the calls) = alignment_from_matchfile(mf) and the ids of mf.notes at every call of a history on ONE live MatchFile"),
             # informational: the staff / voice CHOSEN for notes written without one (not named by the property)
-            ("attrs_fill", ai_terms[:120 if quick else 1500], ai_cases[:120 if quick else 1500], "chk_attrs_fill", None)]
+            ("attrs_fill", ai_terms[:120 if quick else 1500], ai_cases[:120 if quick else 1500], "chk_attrs_fill", None),
+            # informational: the TEXTS of the header (performer, piece, ... "-" when not given; not named by the property)
+            ("header_texts", hd_terms, hd_cases, "chk_header_texts", None),
+            # informational: files with a second clock line (the model takes the first, as MatchFile.info does) or without one
+            ("file_clock_info", fi_terms, [None] * len(fi_terms), "chk_file_clock", None)]
     # all streams are evaluated together: every case is the boolean  checker term ; the cases are dealt to
     # 2 * VERIF_JOBS files of about the same text size (parsing the literals is what costs)
     flat = [(len(t), si, k) for si, st in enumerate(streams) for k, t in enumerate(st[1])]
@@ -2894,9 +3121,15 @@ def run(ctx):
     for si, (name, terms, cases, checker, what) in enumerate(streams):
         failing = sorted(failing_by[si])
         if what is None:
-            if machinery is None:
+            if machinery is None and name == "attrs_fill":
                 ctx.count("info:files_where_chosen_voice_or_staff_differs_from_model", len(failing))
                 ctx.count("info:files_compared_for_chosen_voice_or_staff", len(terms))
+            elif machinery is None and name == "file_clock_info":
+                ctx.count("info:disturbed_headers_where_loader_differs_from_model", len(failing))
+                ctx.count("info:disturbed_headers_compared", len(terms))
+            elif machinery is None:
+                ctx.count("info:files_where_header_texts_differ_from_model", len(failing))
+                ctx.count("info:files_compared_for_header_texts", len(terms))
             continue
         if machinery is not None:
             ctx.obligation("correspondence: %s" % what, False, machinery[-800:])
